@@ -2,7 +2,7 @@
 from ..rules import delivery
 from .common import declare
 
-RULES = ['SWAP-ATOMIC', 'FLUSH-RESETS', 'ARM-CANCEL', 'APPEND-THEN-TEST', 'ARM-ON-FIRST', 'SERIAL-DRAIN', 'FIFO-END', 'EMIT-SIG',
+RULES = ['TIMEDELTA-TOTAL', 'SWAP-ATOMIC', 'FLUSH-RESETS', 'ARM-CANCEL', 'APPEND-THEN-TEST', 'ARM-ON-FIRST', 'SERIAL-DRAIN', 'FIFO-END', 'EMIT-SIG',
          'SINGLE-CONSUMER']
 FLOORS = {'SWAP-ATOMIC': 6, 'ARM-CANCEL': 1, 'APPEND-THEN-TEST': 1, 'ARM-ON-FIRST': 1, 'SERIAL-DRAIN': 2, 'FIFO-END': 5,
           'EMIT-SIG': 5, 'SINGLE-CONSUMER': 2}
@@ -31,7 +31,11 @@ def run(ctx, R):
     delivery.check_swap_atomic(ctx, R, classes)
     delivery.check_flush_resets(ctx, R, classes)
     delivery.check_partition_timer(ctx, R)
+    delivery.check_timedelta_total(ctx, R)
     delivery.check_serial_drain(ctx, R, classes)
     delivery.check_fifo_end(ctx, R, classes)
     delivery.check_emit_sig(ctx, R, classes)
     delivery.check_single_consumer(ctx, R, classes)
+
+
+META['level'] += ' Durations are converted with total_seconds() (TIMEDELTA-TOTAL).'
